@@ -306,6 +306,43 @@ def run_system_case(ctx, res, seed, cost_kind, lines=None, post=None):
     res.hit('allocation-' + cost_kind)
 
 
+def run_failing_cost_case(ctx, res, seed):
+    """a serial model that reports a (fidelity-dependent) cost and RAISES at a few evaluations in the middle of larger batches: the
+    failed evaluations were made - the allocation report must count them (and book their fidelity's cost), per fidelity"""
+    from amisc import Component, Variable
+    from amisc.training import SparseGrid
+    rng = random.Random(seed)
+    fail_at = set(rng.sample(range(6, 16), 2))
+
+    def fail(k, alpha, x):
+        return 'raise' if k in fail_at else None
+    cost = lambda alpha, k: 0.9 + 1.4 * sum(alpha)   # noqa: E731
+    f1 = lambda alpha, x: {'y1': np.exp(0.4 * x['x0']) * (1 + 0.2 * sum(alpha)) + 0.3 * x['x1']}   # noqa: E731
+    r1 = cc.Recorder(f1, ['x0', 'x1'], ['y1'], 1, False, cost, fail=fail)
+    c1 = Component(r1.model(), inputs=[Variable('x0', domain=(0.0, 1.0)), Variable('x1', domain=(-1.0, 1.0))], outputs=[Variable('y1')],
+                   name='c1', vectorized=False, model_fidelity=(1,), data_fidelity=(2, 2),
+                   training_data=SparseGrid(opt_args={'locally_biased': False, 'maxfun': 60}))
+    system = System(c1, name='sf')
+    np.random.seed(seed % (2 ** 31))
+    system.fit(max_iter=rng.randint(5, 7), num_refine=30, max_tol=-np.inf)
+    cost_alloc, eval_alloc, cost_cum, eval_cum = system.get_allocation()
+    truth = {}
+    for al, x, y in r1.calls:
+        truth[al] = truth.get(al, 0) + 1
+    info = {'failing_cost_case': seed, 'raised_at_calls': sorted(fail_at), 'calls': len(r1.calls)}
+    if not any(y == 'raise' for _, _, y in r1.calls):
+        return
+    for al, n in truth.items():
+        rep_n = eval_alloc.get('c1', {}).get(al, 0)
+        rep_c = cost_alloc.get('c1', {}).get(al, 0.0)
+        if rep_n != n or abs(rep_c - n * cost(al, 0)) > 1e-9 * max(1.0, n * cost(al, 0)):
+            res.failures.append({'kind': 'allocation-report-differs-from-ground-truth', 'signature': 'none',
+                                 'input': {**info, 'alpha': list(al)}, 'observed': {'evals': rep_n, 'cost': rep_c},
+                                 'expected': {'evals': n, 'cost': n * cost(al, 0)}})
+    res.hit('allocation-with-failed-evaluations-that-report-cost')
+    res.case(('failing_cost', seed), True, info)
+
+
 def check_cost_line(res, o, misc, avgs, info):
     """compare one `sg.cost` answer (booked costs | averages) with the component's misc_costs / model_costs"""
     try:
@@ -449,6 +486,8 @@ def run(ctx: core.Ctx, only=None) -> core.Result:
             with core.guarded(res, 'scenario-raised', case):
                 run_latent_case(ctx, res, case['latent'])
             continue
+        if 'failing_cost_case' in case:
+            continue
         if 'cost_profile' in case and 'nin' not in case:
             with core.guarded(res, 'scenario-raised', case):
                 run_system_case(ctx, res, case['seed'], case['cost_profile'], lines, post)
@@ -462,6 +501,15 @@ def run(ctx: core.Ctx, only=None) -> core.Result:
             prof = ['nondyadic', 'varying', 'alpha', 'none', 'const'][k % 5]
             with core.guarded(res, 'scenario-raised', {'seed': sd, 'cost_profile': prof}):
                 run_system_case(ctx, res, sd, prof, lines, post)
+    if only is None:
+        for _ in range(ctx.scale(2, 8)):
+            sd = ctx.rng.randrange(10 ** 6)
+            with core.guarded(res, 'scenario-raised', {'failing_cost_case': sd}):
+                run_failing_cost_case(ctx, res, sd)
+    else:
+        for o_ in only:
+            if 'failing_cost_case' in o_.get('input', o_):
+                run_failing_cost_case(ctx, res, o_.get('input', o_)['failing_cost_case'])
     out = core.try_driver(lines, res, 'Amisc.activateBatch')
     for pst, o in zip(post, out or []):
         if pst is None:
